@@ -4,11 +4,18 @@ from __future__ import annotations
 import copy
 
 from ..common import Check, drive, replay as _replay, uncps, cps
+from ..docs import with_global_top
 
 PIPELINE = """
 name: verif-c08
 priority: 10
 transformations:
+  - id: af
+    type: add_field
+    field: y
+    rule_conditions:
+      - type: logsource
+        product: windows
   - id: st
     type: set_state
     key: index
@@ -55,12 +62,9 @@ transformations:
   - id: sf
     type: set_field
     fields: [x]
-  - id: af
-    type: add_field
-    field: y
     rule_conditions:
       - type: logsource
-        product: windows
+        product: linux
 postprocessing:
   - id: showfields
     type: simple_template
@@ -77,6 +81,7 @@ def rule_doc(kind: str, pos: int) -> dict:
         "name": f"r{pos}",
         "logsource": {"category": "c", "product": "linux"},
         "detection": {"sel": {"fieldA": f"v{pos}"}, "condition": "sel"},
+        "fields": ["base"],
     }
     if kind == "ok2":
         d["detection"]["condition"] = ["sel", "not sel"]
@@ -125,7 +130,9 @@ def _convert(docs, collect, noteq=False):
     from sigma.backends.test import TextQueryTestBackend as Base
 
     # a class of its own for every conversion: what a conversion leaves behind on its backend CLASS stays with it
-    TextQueryTestBackend = type("C08Backend", (Base,), dict(NOTEQ if noteq else {}, re_flag_prefix=False, re_flags={},
+    from sigma.processing.pipeline import ProcessingPipeline
+
+    TextQueryTestBackend = type("C08Backend", (Base,), dict(NOTEQ if noteq else {}, re_flag_prefix=False, re_flags={}, backend_processing_pipeline=ProcessingPipeline(),
                                                          # the query frame shows a pipeline state variable, with a default for rules that do not set it
                                                          query_expression="[idx={state[index]}] {query}", state_defaults={"index": "dflt"}))
     from sigma.processing.pipeline import ProcessingPipeline
@@ -160,6 +167,10 @@ def drive_case(case):
         docs = docs + [c]
     else:
         o["corr_alone"] = {"ok": False, "out": [], "exc": "", "sigma": False, "errors": []}
+    # every other collection is written the short way: the field list the documents have in common stands once, in a
+    # global action document (the rules alone are converted from their full documents)
+    if case["corr"] == "none" and (case["id"] * 2654435761 >> 9) % 2 == 1:
+        docs = with_global_top(docs, "fields")
     o["coll"] = _convert(docs, case["collect"], noteq)
     return o
 
